@@ -438,6 +438,12 @@ impl Search {
 
             self.board.unmake_move();
 
+            // The search was stopped somewhere below: `score` comes from an unfinished subtree, so
+            // it must neither be cached nor used to choose a move here.
+            if !self.is_running() || self.limits_exceeded(start) {
+                return 0;
+            }
+
             // Move is too good, opponent will not allow the game to reach this position
             if score >= beta {
                 TRANSPOSITION_TABLE
